@@ -51,6 +51,30 @@ CLAIMS = {
   text="Absence of writes, for every state within the bounds: representation-level frame checks around ordered.Map observers (Len, IsZero, Get, Contains, Range, ToMap, Equal, MarshalJSON, MarshalYAML) and around Plugin.FullSource/Marshal*, Matrix.validatePermutation/Marshal*/IsEmpty and CommandStep.MarshalJSON, plus an SSA pass over every function (instantiations and closures included) of the five packages showing that none outside the package initialisers stores to, or through, a package-level variable. A data race needs a write, so read-only sharing and use of distinct objects are race-free for every schedule, modulo third-party internals.",
   note="Partial by construction: goroutine interleavings are not symbolic variables here and the race detector is not the instrument; the claim is `no write`, not an exploration of schedules. Sign/Verify not writing the step or env is decided under C06. Stores in functions that use sync/atomic primitives are reported as inconclusive, not as violations.",
   ref="DESIGN.md §5 C19"),
+ "C01": dict(
+  text="Bounded symbolic execution of signature.Sign, Verify, ValuesForFields, SignedFields, requireKeys, canonicalPayload, EmptyToNil* and the Plugin/Matrix marshalers: a step is signed, then a presented world that differs from the signed one in exactly one of 23 ways (command, step env, plugin sequence, matrix, repository URL, signed pipeline variable, algorithm string, signed-field list, signature value forged or spliced from another step, another key) is verified and must be rejected; the untouched world (with unrelated env variables) must verify. Strings are symbolic. JWK keys for EdDSA/ES512/PS512 and an ES256 crypto.Signer. Counterexamples are replayed with real generated keys.",
+  note="Partial: decides Verify's own logic (payload rebuilt from the presented step, mandatory field set, requireKeys, env shadowing, algorithm bound into the payload) under an ideal signature scheme and an injective canonical encoding. Unforgeability of the real algorithms and byte-level injectivity of json.Marshal+JCS are assumed, not shown. One step shape (2 plugins, 1 env entry), 1-byte symbolic strings; Go map orders fixed in this harness (C14 varies them).",
+  ref="DESIGN.md §5 C01"),
+ "C03": dict(
+  text="Bounded symbolic execution of the decode side (Pipeline/Steps/CommandStep/GroupStep/Plugins/Matrix/MatrixSetup/MatrixAdjustmentWith/Cache.UnmarshalOrdered, the reflective unmarshaler) and the emit side (inlineFriendlyMarshalJSON, isEmptyValue and every MarshalJSON/MarshalYAML method reached) on generic document trees: every combination of key/id/identifier, label/name, command/commands, each plugins / matrix / cache shorthand, env scalars, all step kinds, groups, pipeline-level extras, unknown extra keys with nested values of every scalar kind. The JSON data model of the marshalled pipeline must be the documented normal form with every other key exactly once and unchanged.",
+  note="Partial: the JSON leg on the data model only. Not claimed: the YAML emitter (yaml.v3 interprets the tags itself), byte-level rendering, input syntax variants (gone once nodes exist; resolver is C07), extra keys inside `signature`. One listed known finding (both `command` and `commands`). Bounds: one step per document, <= 1 (quick) / 2 (thorough) extra keys, 1-byte symbolic strings.",
+  ref="DESIGN.md §5 C03"),
+ "C06": dict(
+  text="Bounded symbolic execution of signature.SignSteps, Sign, configureOptions, SignedFields, ValuesForFields, Verify, requireKeys, canonicalPayload over symbolic step lists (command, wait, input, trigger, group, unknown; groups nested), pipeline env / step env overlaps and all four key kinds: refusal iff an unknown step occurs anywhere; otherwise every command step at every depth carries a signature naming the key's algorithm, its signed-field list is exactly the sorted expected list, it verifies (env extended by an unrelated variable), and nothing but Signature fields is written (step scalars, step env, plugins, caller's env map).",
+  note="Bounds: two steps per level at nesting depth 0 (quick) / 1 (thorough) with Go map orders fixed, and one step per level at depth 2 / 3 with all map orders. Real cryptography idealised (replays use real keys).",
+  ref="DESIGN.md §5 C06"),
+ "C13": dict(
+  text="Bounded symbolic execution of ordered.Unmarshal into Pipeline (Pipeline/Steps/GroupStep.UnmarshalOrdered, unmarshalStep, stepFromMap, NewScalarStep, the reflective unmarshaler, warning.*) on decoded documents whose step sequence mixes valid and invalid scalars, well-formed maps of every kind, ill-typed and unknown-type maps, ints, nulls and (nested) groups, for all four top-level shapes: no panic; a usable result has a non-nil list with exactly one non-nil step per entry in order, recursively in groups; fallbacks hold the original entry verbatim; the warning tree has exactly one leaf per fallback; the result marshals to JSON.",
+  note="Partial: the structural half only. `For any byte sequence ... bounded time ... never panics` through yaml.v3's scanner/parser is not encodable and not claimed; YAML marshalling of the result neither. Bounds: <= 2 (quick) / 3 (thorough) entries without nesting, <= 1 / 2 entries with groups of <= 2 children.",
+  ref="DESIGN.md §5 C13"),
+ "C14": dict(
+  text="Bounded symbolic execution of Sign's payload construction (SignedFields, env:: namespacing, canonicalPayload, EmptyToNil*, Plugin.MarshalJSON/FullSource, Matrix.MarshalJSON) observed where the property observes it - the payload handed to the Logger under WithDebugSigning(true) - for pairs of worlds with symbolic strings: the payloads must be equal for re-orderings (every Go map iteration order is a fork choice), nil vs empty env/plugins/matrix/config and short vs canonical plugin source, and must differ for 14 kinds of single-field and boundary-shifting differences.",
+  note="Partial: on the JSON data model. json.Marshal+jcs.Transform are assumed to be a function of, and injective on, the data model; number spelling, escaping and UTF-16 key ordering of the byte output are the libraries' and are not covered.",
+  ref="DESIGN.md §5 C14"),
+ "C16": dict(
+  text="Bounded symbolic execution of ordered.Unmarshal / decodeInto / unmarshalScalar / Map.UnmarshalOrdered through reflect (modelled over the engine's typed heap from go/types of the current source) into a family of tagged struct types: plain, aliased, omitempty, `-`, untagged and unexported fields, slices, maps, nested and pointer-to-struct fields, inline map, ordered inline *MapSA and inline pointer-to-struct. Each named key is present / null / absent and free keys of 0-2 symbolic bytes are added; every key must land in exactly one destination, absent keys leave fields untouched, null zeroes them, leftovers keep document order.",
+  note="Partial: the partition rule only. `Equals what yaml.Node.Decode produces` needs yaml.v3's reflective decoder and is not claimed. Bounds: 8 named keys x 3 states plus <= 1 (quick) / 2 (thorough) free keys.",
+  ref="DESIGN.md §5 C16"),
 }
 
 NOT_APPLICABLE = {}
